@@ -84,6 +84,31 @@ fn definition_with_sorted_binder(spec: &Sexp) -> bool {
     })
 }
 
+/// number of guards of the antecedent chain of an inductive lemma `[forall ..] ((C t (ge (n k)) g2 ..) -> F)` whose
+/// first guard is `>= numeral` (0 = no such entry); the maximum over the outline
+fn inductive_chain_guards(spec: &Sexp) -> usize {
+    fn guards(f: &Sexp) -> usize {
+        match f.tag() {
+            Some(("forall", [_, g])) => guards(g),
+            Some(("imp", [lhs, _])) => match lhs.tag() {
+                Some(("C", [_, first, rest @ ..])) => match first.tag() {
+                    Some(("ge", [n])) if matches!(n.tag(), Some(("n", _))) => 1 + rest.len(),
+                    _ => 0,
+                },
+                _ => 0,
+            },
+            _ => 0,
+        }
+    }
+    let mut best = 0;
+    walk(spec, &mut |x| {
+        if let Some(("inductive-lemma", f)) = af(x) {
+            best = best.max(guards(f));
+        }
+    });
+    best
+}
+
 fn external_task(input: &Sexp) -> Option<&[Sexp]> {
     // the task alone or (task components)
     match input.tag() {
@@ -480,6 +505,13 @@ pub fn features(op: &str, input: &Sexp, output: &Sexp) -> Vec<&'static str> {
             if let Some(spec) = v.first() {
                 if head(output) == Some("ok") && definition_with_sorted_binder(spec) {
                     fs.push("accepted-definition-sorted-binder");
+                }
+                let k = inductive_chain_guards(spec);
+                if k >= 2 {
+                    fs.push("inductive-chain-antecedent");
+                }
+                if k >= 3 {
+                    fs.push("inductive-chain-3-guards");
                 }
             }
         }
